@@ -68,18 +68,30 @@ Theorem C38_gravity_ground_gets_nothing gvec bs : hd (sv_zero ROps) (grav_F ROps
 Proof. exact (gravity_ground_gets_nothing gvec bs). Qed.
 Print Assumptions C38_gravity_ground_gets_nothing.
 
-Theorem C38_uniformgravity_zero_height_refuted : exists g zeroHeight (b:gbody (T:=R)),
-  let '(m, com, X, ex) := b in
-  ex = false /\ v3_dot ROps (pt_G ROps X com) (0,1,0) = zeroHeight /\ g = (0,-2,0) /\
-  snd (ev_uniformgravity ROps 0 g zeroHeight [b]) <> 0.
-Proof. exact (@uniformgravity_zero_height_refuted). Qed.
-Print Assumptions C38_uniformgravity_zero_height_refuted.
-
 Theorem C38_uniformgravity_PE_formula nu g z (bs:list (gbody (T:=R))) :
   snd (ev_uniformgravity ROps nu g z bs) =
-  sumR (map (fun b:gbody (T:=R) => let '(m, com, X, ex) := b in if ex then 0 else - (m * (v3_dot ROps g (pt_G ROps X com) + z))) bs).
+  sumR (map (fun b:gbody (T:=R) => let '(m, com, X, ex) := b in
+                                   if ex then 0 else - (m * (v3_dot ROps g (pt_G ROps X com) + v3_norm ROps g * z))) bs).
 Proof. exact (uniformgravity_PE_formula nu g z bs). Qed.
 Print Assumptions C38_uniformgravity_PE_formula.
+
+Theorem C38_uniformgravity_PE_is_documented nu g z (bs:list (gbody (T:=R))) : v3_norm ROps g <> 0 ->
+  snd (ev_uniformgravity ROps nu g z bs) =
+  sumR (map (fun b:gbody (T:=R) => let '(m, com, X, ex) := b in
+        if ex then 0 else m * v3_norm ROps g * (v3_dot ROps (pt_G ROps X com) (v3_neg ROps g) / v3_norm ROps g - z)) bs).
+Proof. exact (uniformgravity_PE_is_documented nu g z bs). Qed.
+Print Assumptions C38_uniformgravity_PE_is_documented.
+
+Theorem C38_uniformgravity_zero_height nu g z m com (X:Transform R) :
+  v3_dot ROps g (pt_G ROps X com) = - (v3_norm ROps g * z) ->
+  snd (ev_uniformgravity ROps nu g z [(m, com, X, false)]) = 0.
+Proof. exact (uniformgravity_zero_height nu g z m com X). Qed.
+Print Assumptions C38_uniformgravity_zero_height.
+
+Theorem C38_uniformgravity_zero_height_witness :
+  snd (ev_uniformgravity ROps 0 (0,-2,0) 3 [(1, (0,0,0), (m33_id ROps, (0,3,0)), false)]) = 0.
+Proof. exact (@uniformgravity_zero_height_witness). Qed.
+Print Assumptions C38_uniformgravity_zero_height_witness.
 
 Theorem C38_mspring_is_documented k q0 q : mspring_f ROps k q0 q = - k * (q - q0) /\ mspring_PE ROps k q0 q = / 2 * k * ((q - q0) * (q - q0)).
 Proof. exact (mspring_is_documented k q0 q). Qed.
